@@ -13,6 +13,8 @@ THEOREMS = [
     "Wild.Link.worklist_processed_once",
     "Wild.Link.worklist_terminal_is_reach",
     "Wild.Link.wstep_measure",
+    "Wild.Link.reach_perm",
+    "Wild.Link.reach_perm_iff",
 ]
 LEVEL = "proof"
 TECHNIQUE = "Lean 4 least-fixpoint + work-list (test-and-set) theorems over the M-Link model; whole-link differential correspondence of the loaded set, position-move metamorphic runs, ld.lld as oracle"
